@@ -39,6 +39,7 @@ class StrictInit(Exception):
 RAISE = {"InjectedFault": InjectedFault, "ValueError": ValueError, "KeyError": KeyError, "ZeroDivisionError": ZeroDivisionError,
          "LinAlgError": np.linalg.LinAlgError, "InjectedFault()": InjectedFault, "AssertionError()": AssertionError, "StrictInit": StrictInit}
 BAD_VALUES = {"nan": float("nan"), "+inf": float("inf"), "-inf": float("-inf"), "complex": complex(1.0, 2.0),
+              "complex-array1": np.array([1.0 + 2.0j]), "nan-array1": np.array([float("nan")]),
               "vector2": np.array([1.0, 2.0]), "list2": [1.0, 2.0], "none": None}
 BAD_PAIRS = {"bare-scalar": 1.5, "tuple3": (1.0, 1.0, 1.0), "sd0": (1.0, 0.0), "sd-neg": (1.0, -1.0), "sd-nan": (1.0, float("nan")),
              "sd-inf": (1.0, float("inf")), "value-nan": (float("nan"), 1.0)}
